@@ -1,5 +1,6 @@
 """C15 — A nick change moves the whole identity and nothing else."""
 from .common import *  # noqa: F401,F403
+from .common import _recv_mut
 from .structs import P, ME, container_census, live_nick_containers, RANK_SETS
 
 NEW = P('nick')
@@ -136,6 +137,19 @@ def check(cx):
     if len(hist) != 1 or hist[0][1]['args'][0] != CONN_NICK or 'history_entry' not in repr(hist[0][1]['args'][1]) \
             or not equivalent(hist[0][0].pc, GR)[0]:
         r2.violation('process_nick|whowas', 'the old nick is not recorded for WHOWAS with the user\'s history entry', loc=fn)
+    # ... and the helper keeps it: it appends the entry to the list of that nick and removes nothing
+    fh = cx.fn('insert_to_nick_history')
+    wh_ = cx.walk(fh, args=[P('self'), P('old_nick'), P('nhe')], key='c15')
+    r2.instance('insert_to_nick_history appends the entry under the nick')
+    happ = [e for e in wh_.events if e.kind == 'call' and e.data['name'] in ('push', 'push_back', 'insert') and e.data['args'][-1:] == [P('nhe')]
+            or (e.kind == 'call' and e.data['name'] in ('insert',) and mentions(e.data['args'][-1], P('nhe')))]
+    drops = [e for e in wh_.events if e.kind == 'call' and not e.data.get('local') and _recv_mut(e, prog) and
+             e.data['name'] in ('truncate', 'pop', 'remove', 'drain', 'clear', 'retain', 'swap_remove', 'split_off', 'dedup', 'resize', 'take')]
+    if not happ or not entails(T, Or(*[e.pc for e in happ]))[0] and not all(e.pc == T for e in happ[-1:]):
+        r2.violation('insert_to_nick_history|append', 'the history entry is not always appended under the old nick', loc=fh)
+    for e in drops:
+        r2.violation('insert_to_nick_history|drops|%s' % e.data['name'], 'the WHOWAS history of a nick is shortened (%s) when an entry is added: a '
+                     'record of a nick change can be lost' % e.data['name'], loc=cx.loc(e.node))
     setn = [e for e in w.events if is_call(e, 'set_nick') and e.data['args'][0] == USTATE and e.data['args'][1] == NEW
             and sat(And(e.pc, auth)) is not None]
     upd = [e for e in w.events if is_call(e, 'update_nick') and e.data['args'][0] == removed and e.data['args'][1] == USTATE]
